@@ -124,5 +124,5 @@ func c16_7(c *core.Ctx, p *core.Prog) {
 func init() {
 	register("C16", &core.Rule{ID: "C16.7", Title: "a returned function value (functional option, factory) captures no live mutable object created by its maker", Mod: core.ModRoot, Floor: 5, Run: c16_7, Canary: c16_7Canary})
 	register("C16", &core.Rule{ID: "C16.8", Title: "payload bytes handed out are a fresh copy: the producer's reusable output buffer is not shared with whoever holds an earlier batch", Mod: core.ModRoot, Floor: 4, Run: c12_6})
-	register("C14", &core.Rule{ID: "C14.14", Title: "the limited allocator is not shared through a returned function value: the limit is per consumer", Mod: core.ModRoot, Floor: 5, Run: c16_7, Canary: c16_7Canary})
+	register("C14", &core.Rule{ID: "C14.15", Title: "the limited allocator is not shared through a returned function value: the limit is per consumer", Mod: core.ModRoot, Floor: 5, Run: c16_7, Canary: c16_7Canary})
 }
